@@ -158,13 +158,26 @@ class Timeline:
                 return b
         return self.points[i]
 
-    def paused_beat(self, t):
-        """The beat b with arrive(b) < t < depart(b) (strictly inside its pause), else None."""
+    def paused_beat(self, t, margin=Fraction(0)):
+        """The beat b with arrive(b) + margin < t < depart(b) - margin (strictly inside its pause), else None."""
         t = Fraction(t)
         for p in self.points:
-            if self.has_pause(p) and self.arrive(p) < t < self.depart(p):
+            if self.has_pause(p) and self.arrive(p) + margin < t < self.depart(p) - margin:
                 return p
         return None
+
+    def near_pause_edge(self, t, margin):
+        t = Fraction(t)
+        return any(
+            self.has_pause(p) and (abs(t - self.arrive(p)) <= margin or abs(t - self.depart(p)) <= margin)
+            for p in self.points
+        )
+
+    def rounding_tie(self, t, margin=Fraction(1, 10**6)):
+        """True when the exact beat at time t lies (almost) exactly half-way between two ticks."""
+        b = self.furthest_beat(t)
+        frac = (b * 48) % 1
+        return abs(frac - Fraction(1, 2)) <= margin
 
     def event_times(self):
         ts = set()
